@@ -6,8 +6,13 @@ Oracles on the real code (none uses the implementation half of the Lean model):
     a false py:if removes / a true one is transparent; only the first matching py:when (else
     py:otherwise) is rendered; scoping: what follows a template sees exactly the outer variables;
   * the real output against the Lean documentation semantics `Genshi.Tmpl.docRender` (gdrv).
+  * character level (text templates): a printed well-formed token list is parsed to itself
+    (`scanprint`, `scanprint-old`), escaped text reaches the output verbatim (`scanverb`).
 Correspondence: the real output and the real prepared stream against the implementation model
-`Genshi.Tmpl.implRender` / `Genshi.Tmpl.compile`.
+`Genshi.Tmpl.implRender` / `Genshi.Tmpl.compile`; the Lean scanners against the compiled regular
+expressions' own `finditer` (`text-scan-tokens`) and against the event stream of `_parse` on raw,
+also malformed, text (`text-scan-parse`); the end-to-end model from source text against the model from
+the AST (`raw-text-compile`) and against the real render (`raw-text-render`).
 """
 import json, random, warnings
 from harness import proto
@@ -23,10 +28,14 @@ TRUSTED = [
     '_extract_directives (the flat depth/dirmap pass), text.py token loop of NewTextTemplate/OldTextTemplate._parse '
     '(hand-written Lean models tied by differential correspondence: rendered events one by one incl. error class, '
     'and the prepared stream Template.stream)',
-    'not modelled, only exercised: expat and MarkupTemplate._parse / interpolate (template source -> parsed stream), the '
-    'regular-expression scanners of the text templates (source -> tokens), genshi.template.eval (expressions are '
-    're-implemented for a mini language: names, None/bool/int/str/list/dict literals, ==, not, len, indexing), '
-    'Attrs.__or__ (C18 model), the serializer',
+    'modelled, not verified: the regular expressions of NewTextTemplate (default delimiters) / OldTextTemplate as total list '
+    'scanners (Model/TmplScan.lean; the shape of the compiled patterns is checked and their flags are read by '
+    'harness/extract_textscan.py), _escape_re.sub, the line splitting of the old syntax, interpolate over the C03 model of lex, '
+    'a reader of the mini language and of the directive arguments (Model/TmplRaw.lean) -- tied by the streams text-scan-tokens, '
+    'text-scan-parse, raw-text-compile, raw-text-render; the Python syntax of ${...} / {% python %} sources is judged by CPython',
+    'not modelled, only exercised: expat and MarkupTemplate._parse (markup source -> parsed stream), genshi.template.eval '
+    '(expressions are re-implemented for a mini language: names, None/bool/int/str/list/dict literals, ==, not, len, indexing), '
+    'Attrs.__or__ (C18 model), the serializer; custom delimiters of NewTextTemplate; line numbers / offsets of the events',
     'outside the model: py:match, <?python?>, xi:include, i18n directives, py:def defaults/*args/**kwargs, tuple '
     'unpacking in py:for / py:with, interpolated attribute values, py: attributes on directive elements (known finding)',
     'the documentation semantics `doc` is a formalisation of doc/xml-templates.rst / text-templates.rst by hand; where '
@@ -40,6 +49,8 @@ ASSUMPTIONS = [
     'parentheses: C03/C13 defect, outside this property); names avoid Python builtins',
     'directive elements (<py:for> ...) carry no further py: attributes (known finding C04-direlem-attrs)',
     'each macro name is defined at most once per template and called only after its definition (no recursion)',
+    'scanner oracles: token lists from the grammar of harness/gen_textraw.py / gen_old_toks (texts without $, balanced blocks; a text '
+    'in front of a delimiter does not end in a backslash: such a template cannot be written)',
     'two Undefined values are never compared with == (object identity of Undefined is not in the value universe: '
     'the model answers unmodelled and the case is counted)',
 ]
@@ -722,7 +733,7 @@ def raw_model(cases):
         else:
             comp = None if str(v[1]) == 'unmodelled' else ['err', str(v[1])]
         vb = proto.dec(b)
-        if str(vb[0]) == 'err' and str(vb[1]) in ('badsyntax', 'baddirective', 'attribute'):
+        if str(vb[0]) == 'err' and str(vb[1]) in ('badsyntax', 'baddirective'):
             rend = ['err', 'syntax']
         else:
             rend = model_out(b)
